@@ -1,5 +1,6 @@
 """C09 — controllers never strand a transaction that could make progress (DESIGN.md section 6, C09)."""
 from props import proto
+import driver
 
 
 def run(ctx):
@@ -35,6 +36,18 @@ def run(ctx):
         cfg3w = dict(nt=1, nx=3, sync=False, rollback=False, faults=True, crash=False, work=True)
         q3w = [('bad', 24, wbad, way3(a, b, 'C')) for a, b in (('C', 'C'), ('C', 'F'))]
         configs.append(('1x3w', cfg3w, q3w, []))
+    # the event -> request mapping the work sets assume, checked against the REAL watcher goroutines (coroutine engine)
+    H = driver.Harness
+    wh = [H('VerifC09WatchTx', 'pkg/controller/v2/transaction', {'pkg/controller/v2/transaction/zz_verif_c09_watch.go': 'c09/zz_verif_c09_watch_tx.go'}, unwind=8, opts={'goroutine_park': True}),
+          H('VerifC09WatchProp', 'pkg/controller/v2/proposal', {'pkg/controller/v2/proposal/zz_verif_c09_watch.go': 'c09/zz_verif_c09_watch_prop.go'}, unwind=8, opts={'goroutine_park': True}),
+          H('VerifC09WatchCfg', 'pkg/controller/v2/configuration', {'pkg/controller/v2/configuration/zz_verif_c09_watch.go': 'c09/zz_verif_c09_watch_cfg.go'}, unwind=8, opts={'goroutine_park': True}),
+          H('VerifC09WatchMs', 'pkg/controller/v2/mastership', {'pkg/controller/v2/mastership/zz_verif_c09_watch.go': 'c09/zz_verif_c09_watch_ms.go'}, unwind=8, opts={'goroutine_park': True})]
+    if ctx.only:
+        wh = [h for h in wh if h.entry in ctx.only]
+        driver.check_harnesses(ctx, wh)
+        driver.write_evidence(ctx, 'model_checking', 'watcher mapping only', {}, [])
+        return
+    driver.check_harnesses(ctx, wh)
     proto.run(ctx, 'C09', configs,
               'BMC deadlock-freedom: no reachable state is a fixed point of every Reconcile (probe step per id) while a transaction '
               'with all targets connected is not final', {'bmc_depth': d})
